@@ -101,6 +101,17 @@ def rule_c(ctx, cr):
         if ok:
             a, b = f.describe(rng[0].args[0]), f.describe(rng[0].args[1])
             ok = "var:from" in a or "from" in a
+        if ok:
+            extra = set()
+            for arg in rng[0].args[:2]:
+                for nm in f.back_slice_calls(arg):
+                    if not re.search(r"(Stack<T>::pop_2|Stack<T>::pop|TryFrom<mach::val::Val>>::try_from|"
+                                     r"TryFrom::try_from|Try>?::branch|RangeInclusive::<Idx>::new)$", nm):
+                        extra.add(nm.rsplit("::", 2)[-2] + "::" + nm.rsplit("::", 1)[-1])
+            ctx.check(not extra, "C15.c", "%s/range-ends-unmodified" % name, rng[0].span,
+                      "both ends are the converted operands themselves",
+                      "a range end is transformed on the way (%s): the range no longer covers "
+                      "exactly the lines from..=to" % sorted(extra))
         excl = [1 for b, i, st in f.aggregates("std::ops::Range")]
         ctx.check(ok and not excl, "C15.c", "%s/inclusive-range" % name, f.span,
                   "builds from..=to", "r#%s no longer builds an inclusive range" % name)
